@@ -255,6 +255,45 @@ def main(pid, tier, seed):
     else:  # C11
         from lib_trainer.omen.evaluate_password import find_omen_level
         from lib_scorer.omen_scorer import OmenScorer
+        # ---- spec -> code: the models MC_Omen's ThreeAgree quantifies over (those a trainer can write: every context of a
+        # ---- transition is listed in IP.level), given to the three real implementations
+        from lib_trainer.omen.alphabet_lookup import AlphabetLookup
+        shaped = [m for m in models if all(any(k == c[0][:-1] for k, _ in m['ip']) for c in m['cp'])]
+        for k, m in enumerate(rng.sample(shaped, min(len(shaped), 150 if tier == 'quick' else 1200))):
+            base = os.path.join(work, 'a%d' % k)
+            od = os.path.join(base, 'Omen')
+            os.makedirs(od)
+            alphabet = omen.write_model(od, m)
+            na = len(alphabet)
+            txt = lambda key: ''.join(alphabet[c - 1] for c in key)
+            ot = AlphabetLookup(alphabet, m['n'], 1, len(m['ln']))
+            ot.ln_lookup = [(lv, 0) for lv in m['ln']]
+            for key, lv in m['ip']:
+                ot.grammar[txt(key)] = {'ip_level': lv, 'ep_level': 0, 'ip_count': 0, 'ep_count': 0, 'cp_count': 0, 'next_letter': {}}
+            for key, lv in m['cp']:
+                ot.grammar[txt(key[:-1])]['next_letter'][alphabet[key[-1] - 1]] = (lv, 1)
+            with contextlib.redirect_stderr(io.StringIO()):
+                sc = OmenScorer(base, 'utf-8', 18)
+            g = omen.load_real(od)
+            model, ids = omen.neutral_model(od)
+            where = {}
+            lmax = 6
+            opt = omen.new_optimizer()
+            for lv in range(0, lmax + 1):
+                strings, done, err = omen.drain(g, lv, opt, cap=30000)
+                if not done or err:
+                    lmax = lv - 1
+                    break
+                for s_ in strings:
+                    where.setdefault(s_, lv)
+            cl = []
+            for L in range(0, len(m['ln']) + 2):
+                for tup in itertools.product(alphabet + ['Z'], repeat=L):
+                    s_ = ''.join(tup)
+                    cl.append([omen.ids_of(s_, ids), find_omen_level(ot, s_), sc.parse(s_), where.get(s_, -3)])
+            tid += 1
+            traces.append({'tid': tid, 'kind': 'agree', 'm': model, 'cands': cl, 'lmax': lmax, 'train': [], 'pwcounts': []})
+            meta[tid] = {'kind': 'model-checked model', 'model': m, 'candidates': len(cl), 'generated_strings_seen': len(where)}
         for name, pws, ngram, asz, cov in trainings(tier, rng):
             res = train.train(pws, ngram=ngram, alphabet_size=asz, coverage=cov)
             if not res['ok']:
@@ -362,7 +401,7 @@ def main(pid, tier, seed):
            'impl_conformance': conf,
            'binding_selftest': selftest,
            'violation_histogram': verdict.histogram()}
-    core.write_evidence(pid, tier, seed, 'model_checking' if pid != 'C11' else 'exploration', cov, time.time() - t0, violations=n_viol,
+    core.write_evidence(pid, tier, seed, 'model_checking', cov, time.time() - t0, violations=n_viol,
                         assumptions=['TLC', 'the smoothing logarithm that assigns levels is not modelled: level tables are data',
                                      'model read from the rule files by the harness neutral reader (C10, C18) or exported from trainer memory (C11)'])
     return rc
